@@ -92,6 +92,12 @@ func (st *Stats) addRun(seg *Segment, race bool, out *RunOut) {
 	if seg.ClockNs > 0 {
 		st.Faults["clock_offset"]++
 	}
+	if seg.GCPct > 0 {
+		st.Faults["forced_gc_segments"]++
+	}
+	if seg.Procs > 0 {
+		st.Faults["gomaxprocs_varied_segments"]++
+	}
 	if len(seg.Phases) > 0 && len(seg.Phases[0]) > 1 {
 		st.Faults["cold_contention"]++
 	}
